@@ -321,6 +321,66 @@ CLAIMS = {
                   "correspondence of the real _run_hash_job + repeat-the-build and exact-cone oracle on simulated builds",
         design="9/C04",
     ),
+    "C03": dict(
+        text="Lean theorems. Dispatch (kernel model, on top of C10): pop_next_job dispatches only an eligible step, which is "
+             "PENDING, attached, not deferred and _ready; readiness on the graph means every declared input is an attached "
+             "BUILT/CONFIRMED file, no input is volatile, no attached amended input is PLANNED/OUTDATED (regenerated "
+             "UNAVAILABLE_INPUT_WHERE table); for such a step the sanity checks of _derive_job never raise. Completion (model "
+             "B/Exec of Executor.execute_job / _new_run / _compute_full_step_hash / _classify_execution): the completion "
+             "carries a step hash only if the command returned 0, no hashing was cancelled, defer was not called, every "
+             "input recorded at dispatch had its recorded content on disk before the command and every input that is "
+             "BUILT/CONFIRMED at completion has it after the command, and every output exists; a changed input (before or "
+             "during the command) completes the step without hash and without deferral, records the change with cause "
+             "FAILED only on rows that are still BUILT/CONFIRMED (for which the regenerated transition table has an entry) "
+             "and drains; an unavailable or unfresh amended input defers; Step.mark_completed without hash never writes "
+             "SUCCEEDED; amend_step accepts an input only if it is attached and CONFIRMED, or BUILT by a producer for which "
+             "ran_concurrently is false; carry_on iff nothing is unavailable/unfresh. Freshness (model B/Windows of "
+             "record_run_started/stopped with pruning, ran_concurrently, build_completed): for all event sequences with a "
+             "non-decreasing clock, if ran_concurrently(p,c) is false while c runs then p has not completed successfully "
+             "since c started (ties count as concurrent). Oracle on simulated builds (real director): commands read every "
+             "input at start and before exit; fresh builds, rebuilds and restarts after a kill, random schedules with 2-4 "
+             "jobs, amends before/after the first read, 0-3 external edits of sources and built files; every SUCCEEDED "
+             "step's reads against the content recorded at the end of the build; FAIL + drain + no later dispatch after a "
+             "change under a running command; availability of declared inputs at command start; freshness of accepted amends.",
+        note=BASE_NOTE + "The two models are tied to the code by correspondence with the real Scheduler methods (clock with "
+             "ties) and the real Executor.execute_job, Step.mark_completed and DirectorHandler.amend_step on real files (only "
+             "launch_command and the hash thread replaced), including rows changed by another request between hashing and "
+             "recording. Limits: ABA content changes between the two hash points are invisible; known findings: "
+             "succeeded-on-stale-input:record-updated-during-run and :input-unchecked-at-completion (inputs not "
+             "BUILT/CONFIRMED at completion are not checked, and the comparison uses the current records), "
+             "command-started-after-input-invalidated:creator-rerun / :producer-repending (a dispatched step is not "
+             "re-validated before its command starts), running-step-row-reset (F9). "
+             "build-error:hash-update-FAILED-on-MISSING/-on-UNCONFIRMED were found by this oracle and fixed (7a3d8b4).",
+        technique="Lean 4 proofs on the kernel model and on models of the executor decision and the run-window bookkeeping + "
+                  "correspondence with the real Executor/Scheduler/amend handler + read-versus-record oracle on simulated "
+                  "builds with external edits",
+        design="9/C03",
+    ),
+    "C05": dict(
+        text="Lean theorems on the kernel model. reset_interrupted_steps: afterwards no step is RUNNING or CHECKING, no "
+             "attached step is FAILED, every _holding counter is zero (given C09's row invariant); an attached step that was "
+             "RUNNING or FAILED is PENDING and no file at the end of one of its dependency edges is BUILT (unique keys); the "
+             "reset creates no BUILT file behind a PENDING step except behind a step that was CHECKING. The failure branch of "
+             "mark_completed and reset_for_rerun leave no file created by the step BUILT. before_delete leaves no persistent "
+             "trace; negation theorem: the deletion queue does not survive a kill (F6). Oracle on simulated builds (real "
+             "director, real SQLite file, WAL bytes restored): for generated projects (optionally after a first build and 1-2 "
+             "plan/source mutations, 1 in 5 inside the rebuild phase of a watching director, half with a sub-plan that is "
+             "deferred while its steps run) EVERY commit index and every step action boundary of the uninterrupted "
+             "successful build is a kill point, 1 in 5 followed by a second kill of the restart; the restart runs with "
+             "STEPUP_DEBUG=1; committed-state invariants after every commit; interrupted steps are executed again and none "
+             "of their outputs is BUILT before that; return code, every file, orphans and every graph line are compared with "
+             "the uninterrupted build.",
+        note=BASE_NOTE + "Equality of the completed restart with the uninterrupted build and the absence of consistency "
+             "errors at reopening are decided by the oracle, not by a theorem (no B-layer model); _check_consistency's repair "
+             "is modelled as a kernel request (C09), its strict form is exercised by the strict restarts. A kill is director "
+             "and steps together at a commit or step-action boundary; SQLite atomic commit and WAL recovery are trusted. "
+             "Only successful uninterrupted builds are compared; histories whose uninterrupted result depends on the schedule "
+             "are compared with the outcomes of four schedules. Known findings: orphan-files-after-restart and "
+             "reverted-outputs-left-after-restart (F6), restart-graph-differs:inp_digest-only, running-step-row-reset (F9).",
+        technique="Lean 4 proofs on the kernel model (restart reset, failure/rerun bookkeeping, memory-only deletion queue) + "
+                  "kernel correspondence + exhaustive kill-point enumeration on simulated builds with strict restarts",
+        design="9/C05",
+    ),
 }
 
 PENDING_REASON = "machinery for this property is not built yet in this round (see DESIGN.md section 12 for the order)"
